@@ -6,7 +6,7 @@ sys.path.insert(0, HERE); sys.path.insert(0, os.environ.get("VERIF_REPO", "/repo
 
 TEXT = {
  "C01": ("exploration", "run-sim", "5.C01",
-         "Seeded search over simulated runs: the real runner executes generated programs whose every callback is scripted (raise / interrupt / skip / pass); the exit code is compared with the reference model's reading of the realised events (no false green, no false red). For every 8th world the clause "plus any single raising hook or cleanup" is enumerated: each hook invocation and each registered cleanup of the run raises once and the verdict must turn red. A sample of worlds is re-executed as a real child process (python, real pipes) and its exit code compared. Sampling of worlds, so evidence not proof; that is the right level because the verdict is a 5-way disjunction over unbounded trees and fault positions.",
+         "Seeded search over simulated runs: the real runner executes generated programs whose every callback is scripted (raise / interrupt / skip / pass); the exit code is compared with the reference model's reading of the realised events (no false green, no false red). For every 8th world the clause (plus any single raising hook or cleanup) is enumerated: each hook invocation and each registered cleanup of the run raises once and the verdict must turn red. A sample of worlds is re-executed as a real child process (python, real pipes) and its exit code compared. Sampling of worlds, so evidence not proof; that is the right level because the verdict is a 5-way disjunction over unbounded trees and fault positions.",
          "reference model sim/model.py; in-process run through Configuration + run_behave; auto-retry worlds excluded (outside the quantifier)"),
  "C02": ("exploration", "run-sim", "5.C02",
          "Lock-step acceptor over the step-function call log (order, background inheritance, nothing after the first non-pass, dry-run purity) plus outcome->status mapping for every executed step, including auto-retry histories (statuses depend on the last attempt only) and async step functions wrapped by async_run_until_complete that sleep, spawn tasks and hit behave's timeout under a virtual-time asyncio loop (no real sleeping). Sampled worlds.",
